@@ -2,7 +2,7 @@
    Only statements closed by [exact <lemma>] and their assumptions.                    *)
 From Coq Require Import ZArith Reals List.
 From FF Require Import Base.Ops Inst.RInst Base.RAlg Base.FMat Model.Numeric Model.Decay Model.Cumulant
-     Model.Tie.C12 Proofs.CMBase Proofs.BasisIndep Proofs.FrameInv Proofs.PauliOnb Proofs.Trapz Proofs.Decay Proofs.TraceId Proofs.BasisChange.
+     Model.Tie.C12 Proofs.CMBase Proofs.BasisIndep Proofs.FrameInv Proofs.PauliOnb Proofs.Trapz Proofs.Decay Proofs.TraceId Proofs.BasisChange Proofs.InfidBasis Proofs.EtmCovariance.
 From FF Require Model.Consts Inst.Param Corr.Agree Corr.Obs Corr.ObsC08.
 Import ListNotations.
 Local Open Scope R_scope.
@@ -106,7 +106,46 @@ Theorem C12_K_trace_invariant : forall d n (Cb Cb' : nat -> fmat),
 Proof. exact K1_trace_invariant. Qed.
 Print Assumptions C12_K_trace_invariant.
 
+(* ... hence the infidelity (C08: = - tr K / d^2) of every noise pair is the same in any two complete orthonormal
+   Hermitian bases, traceless or not; [HB] is the relation B' = O B of C12_cm_change_of_basis *)
+Theorem C12_infidelity_basis_independent : forall d (bs bs' : list MatR), (0 < d)%nat ->
+  let n := length bs in let Cb := fun k => toF (nthm bs k) in let Cb' := fun k => toF (nthm bs' k) in
+  length bs' = n ->
+  basis_herm d n Cb -> basis_orthonormal d n Cb -> basis_complete d n Cb ->
+  basis_herm d n Cb' -> basis_orthonormal d n Cb' -> basis_complete d n Cb' ->
+  forall na no (Bm Bm' : A3r) idx (sp : spectrumR) omega, idx_ok na idx -> length omega = no ->
+  (forall a k o, (a < na)%nat -> (k < n)%nat -> (o < no)%nat ->
+     a3get RO Bm' a k o = csumn' n (fun m => cmul' (CumulantCCP.rcx (Omat d Cb Cb' k m)) (a3get RO Bm a m o))) ->
+  forall i j, (i < length idx)%nat -> (j < length idx)%nat -> (is_cross sp = false -> i = j) ->
+  nth (lead_pos sp (length idx) i j) (infidelity_total RO d na n no Bm' bs' idx sp omega) 0 =
+  nth (lead_pos sp (length idx) i j) (infidelity_total RO d na n no Bm bs idx sp omega) 0.
+Proof. exact infidelity_basis_independent. Qed.
+Print Assumptions C12_infidelity_basis_independent.
+
+(* error transfer matrix: for an orthogonal O every Taylor polynomial of exp is covariant, K' = O K O^T =>
+   sum_{m<=M} K'^m/m! = O (sum_{m<=M} K^m/m!) O^T, and its trace (d^2 x process fidelity) is invariant; the package's
+   ETM is scipy's expm (oracle, validated against exp_taylor .. 40 on intervals in C09) *)
+Theorem C12_O_rows_orthonormal : forall d n (Cb Cb' : nat -> fmat),
+  basis_herm d n Cb -> basis_complete d n Cb -> basis_herm d n Cb' -> basis_orthonormal d n Cb' ->
+  forall i j, (i < n)%nat -> (j < n)%nat ->
+  sumn' n (fun m => Omat d Cb Cb' i m * Omat d Cb Cb' j m) = if Nat.eqb i j then 1 else 0.
+Proof. exact O_rows_orthonormal. Qed.
+Theorem C12_exp_taylor_covariant : forall n (O : nat -> nat -> R),
+  (forall a b, (a < n)%nat -> (b < n)%nat -> sumn' n (fun k => O k a * O k b) = if Nat.eqb a b then 1 else 0) ->
+  (forall i j, (i < n)%nat -> (j < n)%nat -> sumn' n (fun a => O i a * O j a) = if Nat.eqb i j then 1 else 0) ->
+  forall (K' K : RMr) M, conj_rel n O K' K -> conj_rel n O (exp_taylor RO n K' M) (exp_taylor RO n K M).
+Proof. exact exp_taylor_covariant. Qed.
+Print Assumptions C12_exp_taylor_covariant.
+Theorem C12_process_fidelity_taylor_invariant : forall n (O : nat -> nat -> R),
+  (forall a b, (a < n)%nat -> (b < n)%nat -> sumn' n (fun k => O k a * O k b) = if Nat.eqb a b then 1 else 0) ->
+  (forall i j, (i < n)%nat -> (j < n)%nat -> sumn' n (fun a => O i a * O j a) = if Nat.eqb i j then 1 else 0) ->
+  forall (K' K : RMr) M, conj_rel n O K' K ->
+  sumn' n (fun i => rmget RO (exp_taylor RO n K' M) i i) = sumn' n (fun a => rmget RO (exp_taylor RO n K M) a a).
+Proof. exact process_fidelity_taylor_invariant. Qed.
+
 (* hypotheses satisfiable *)
+Example C12_unitary_example : funitary 2 (toF Wx).
+Proof. exact Wx_unitary. Qed.
 Example C12_pauli_is_complete_onb :
   basis_herm 2 4 pauli_Cb /\ basis_orthonormal 2 4 pauli_Cb /\ basis_complete 2 4 pauli_Cb.
 Proof. exact (conj pauli_herm (conj pauli_orthonormal pauli_complete)). Qed.
